@@ -280,3 +280,8 @@ class Cost_find_promotable:
 
     def ensures(old, s, result):
         return {"spec": cost_promotable_spec(old.rung, result), "frame": unchanged(s.rung, old.rung)}
+
+
+from pyvc.native import native_monitor  # noqa: E402
+
+EXTRA_CHECKS = [native_monitor("C04", "contracts.c04_native", "monitor_hyperband", "hyperband", "631 (thorough 3598) scenarios: the real HyperbandScheduler (promotion, pasha, rush, cost-aware, stopping; 1..3 brackets; all data policies; random and GP searcher) under a Tuner-like event loop with failures and self-completion, compared with an independent ledger (numpy quantiles, three-valued eligibility with tie latitude, total cost, PASHA min/max twin)")]
